@@ -734,3 +734,98 @@ func TestC02_R_SingleBlockShardedDirWithoutReadStorage(t *testing.T) {
 		}
 	}
 }
+
+// A directory node that has just served a lookup reaching far down (names whose digests share 33 .. 59 leading bits sit
+// tens of levels deep; more than 32 digest bits are consumed on the way) must answer the next lookups as a fresh node does:
+// members whose digests agree with the deep one in the bits consumed last and differ only in earlier bits - in every order.
+func TestC02_R_LookupsAfterVeryDeepLookups(t *testing.T) {
+	for _, fanout := range []int{8, 16, 256, 1024} {
+		for _, shared := range []int{33, 36, 40, 41, 48, 59} {
+			base := 0x9e3779b97f4a7c15*uint64(shared) + uint64(fanout)
+			deep := craftGroup(base, shared, 2, uint64(fanout))
+			if len(deep) != 2 {
+				t.Fatalf("HARNESS: crafted %d names", len(deep))
+			}
+			names := append([]string{}, deep...)
+			hA := murmur3.Sum64([]byte(deep[0]))
+			for _, k := range []int{0, 1, 2, 5, 7, 9, shared - 33, shared - 32} {
+				if k < 0 || k >= shared {
+					continue
+				}
+				nm := craftName(hA^(1<<uint(63-k)), uint64(k)+77)
+				dup := false
+				for _, o := range names {
+					dup = dup || o == nm
+				}
+				if !dup {
+					names = append(names, nm)
+				}
+			}
+			for i := 0; i < 20; i++ {
+				names = append(names, fmt.Sprintf("filler-%d-%d", shared, i))
+			}
+			es := make([]entrySpec, len(names))
+			for i, n := range names {
+				es[i] = entryFor(n, 0)
+			}
+			st := NewStore()
+			root, _, err := buildSharded(st, es, fanout)
+			if err != nil {
+				t.Fatalf("harness: %v", err)
+			}
+			for _, order := range []string{"deep-first", "deep-between", "reverse"} {
+				seq := append([]int{}, make([]int, 0)...)
+				switch order {
+				case "deep-first":
+					for i := range es {
+						seq = append(seq, i)
+					}
+				case "deep-between":
+					for i := 2; i < len(es); i++ {
+						seq = append(seq, 0, i, 1, i)
+					}
+				default:
+					for i := len(es) - 1; i >= 0; i-- {
+						seq = append(seq, i, 0)
+					}
+				}
+				rn, err := loadReified(st.LinkSystem(), root, "unixfs")
+				if err != nil {
+					t.Fatal(err)
+				}
+				nd := rn.(nativeDir)
+				for step, i := range seq {
+					e := es[i]
+					var got cid.Cid
+					var lerr error
+					must(t, "lookup", func() {
+						switch step % 3 {
+						case 0:
+							var v datamodel.Node
+							if v, lerr = rn.LookupByString(e.Name); lerr == nil {
+								got, lerr = linkOf(v)
+							}
+						case 1:
+							var v datamodel.Node
+							if v, lerr = rn.LookupBySegment(datamodel.PathSegmentOfString(e.Name)); lerr == nil {
+								got, lerr = linkOf(v)
+							}
+						default:
+							if l := nd.Lookup(pbString(e.Name)); l == nil {
+								lerr = fmt.Errorf("native Lookup: nil")
+							} else {
+								got = l.Link().(cidlink.Link).Cid
+							}
+						}
+					})
+					if lerr != nil || got != e.Cid {
+						t.Fatalf("C02: fanout %d, two names sharing %d digest bits, order %s: lookup #%d of member %x (digest %016x) after the earlier lookups: %s, %v - a fresh node finds %s", fanout, shared, order, step, e.Name, murmur3.Sum64([]byte(e.Name)), got, lerr, e.Cid)
+					}
+				}
+				if int(rn.Length()) != len(es) {
+					t.Fatalf("C02: fanout %d, shared %d: Length %d, %d entries", fanout, shared, rn.Length(), len(es))
+				}
+			}
+		}
+	}
+}
